@@ -72,6 +72,41 @@ def run(ctx):
                    "reads through: " + allowed.get(r, "") if r in allowed else
                    "`%s` reads raw storage bytes but is not in the frozen reader table" % r)
 
+    # R04d: the left-over of a consumed free region always gets its own (free) header: the header chain is scanned
+    # sequentially on reopen, so a header-less gap - however small - makes the rest of the file unreadable.  The
+    # free_a_region call that writes it may be skipped only when the left-over is empty: its guard compares with zero
+    # or compares two sizes; a non-zero constant threshold ("only if more than a header is left") is a violation.
+    n_left = 0
+    for fb in sorted(fa.find(r"^agdb::storage::Storage::"), key=lambda x: x.npath):
+        takes = lambda body: any(cfg.callee(t) in (REC + "take_free", REC + "take_free_after") for i, t in cfg.calls(body))
+        consumes = takes(fb) or any(takes(cb) for cb, j, tj in common.callers_of(fa, common.norm(fb.npath), "agdb"))
+        if not consumes:
+            continue
+        for i, t in cfg.calls(fb):
+            if cfg.callee(t) != S + "free_a_region":
+                continue
+            for i_sw, blk in enumerate(fb.blocks):
+                tt = blk["term"]
+                if blk.get("cleanup") or tt["k"] != "switch" or tt.get("x"):
+                    continue
+                pl = cfg.op_place(tt["d"])
+                ds = [d for d in cfg.defs(fb).get(pl[0], []) if d[0] == "assign"] if pl else []
+                if not (ds and ds[0][2]["k"] == "bin" and ds[0][2]["op"] in ("Eq", "Ne", "Lt", "Le", "Gt", "Ge")):
+                    continue
+                if not any(cfg.find_path(fb, [0], [i], removed_edges=[(i_sw, tg)]) is None for tg in cfg.succs(fb, i_sw)):
+                    continue          # this comparison does not decide the call
+                n_left += 1
+                r = ds[0][2]
+                consts = [cfg.op_const(o).get("v") for o in (r["a"], r["b"]) if cfg.op_const(o)]
+                ok = (not consts) or consts == [0]
+                ctx.ob("R04d", "%s:left-over-header-guard" % common.norm(fb.npath), ok,
+                       "the left-over free header is skipped only for an empty left-over (%s)" % (
+                           "compared with 0" if consts else "two sizes compared") if ok else
+                       "`%s` skips the free header of a left-over region below the constant threshold %s: a small non-empty "
+                       "gap stays without a header and the file cannot be scanned on reopen" % (common.norm(fb.npath), consts),
+                       fb.loc(i_sw), key="%s|R04d|%s|left-over-header-guard" % (ctx.pid, common.norm(fb.npath)))
+    ctx.floor("R04d", "guards of left-over free headers", n_left, 3)
+
     b = ctx.anchor("R04c", S + "optimize_storage")
     if b:
         opens = [i for i, t in cfg.calls(b) if cfg.callee_decl(t) in common.OPEN_DECLS]
@@ -86,4 +121,15 @@ def run(ctx):
         ctx.ob("R04c", "optimize_storage", ok,
                "bracket: ... truncate -> clear_free -> commit on every path" if ok else
                "optimize_storage can commit without truncating the file and clearing the free list", b.where)
+        # no early exit: every success path from the ENTRY performs the compaction pass.  (An early return under a
+        # "nothing to reclaim" test is how unused space survives: free_size() counts data bytes only, not the
+        # 16-byte headers of empty free regions.  A provably correct early exit would have to be added to this rule.)
+        okb, errb, unk = cfg.ret_class_blocks(b)
+        targets = (okb + unk) or cfg.return_blocks(b)
+        p1 = cfg.find_path(b, [0], targets, avoid=tr) if tr else [0]
+        p2 = cfg.find_path(b, [0], targets, avoid=cf) if cf else [0]
+        ctx.ob("R04c", "optimize_storage:no-early-exit", p1 is None and p2 is None,
+               "every successful optimize_storage truncates the file and clears the free list" if (p1 is None and p2 is None)
+               else "optimize_storage can return successfully without compacting (%s): unused space may remain after "
+               "defragmentation" % cfg.path_str(b, p1 or p2), b.where)
     return 0
